@@ -181,8 +181,11 @@ def parse_template(lines, flavour):
         elif s.startswith("//@loop "):
             n = int(s.split()[1])
             sink = cur.loops.setdefault(n, [])
-        elif s.startswith("//@before ") or s.startswith("//@after "):
-            m = re.match(r"//@(before|after)\s+`(.*)`\s*(?:#(\d+)/(\d+))?\s*$", s)
+        elif s.startswith("//@before-loop "):
+            sink = []
+            cur.splices.append(("before-loop", int(s.split()[1]), sink))
+        elif re.match(r"//@(before|after|before-stmt|after-stmt|in-block) ", s):
+            m = re.match(r"//@(before-stmt|after-stmt|in-block|before|after)\s+`(.*)`\s*(?:#(\d+)/(\d+))?\s*$", s)
             if not m:
                 raise ExtractError("bad splice at %s" % origin)
             sink = []
@@ -274,6 +277,34 @@ def stmt_start(m, pos):
             return i + 1, block_open
         i -= 1
     return block_open + 1, block_open
+
+
+def stmt_end(m, s0, limit):
+    """offset just after the statement that starts at s0 (within the block that closes at `limit`)"""
+    i = s0
+    while i < limit:
+        c = m[i]
+        if c in "([":
+            i = match_close(m, i) + 1
+            continue
+        if c == ";":
+            return i + 1
+        if c == "{":
+            j = match_close(m, i)
+            rest = m[j + 1:limit]
+            mm = re.match(r"\s*else\b", rest)
+            if mm:
+                i = j + 1 + mm.end()
+                continue
+            mm = re.match(r"\s*([.?;])", rest)
+            if mm:
+                if mm.group(1) == ";":
+                    return j + 1 + mm.end()
+                i = j + 1
+                continue
+            return j + 1
+        i += 1
+    return limit
 
 
 def guard_range(m, start, end):
@@ -380,7 +411,8 @@ def apply_R4(body, heap_methods, stats, fid):
         k = j
         while k > 0 and (m[k - 1].isalnum() or m[k - 1] in "_. \n\t"):
             k -= 1
-        recv = norm_ws(m[k:j]).replace(" ", "")
+        recv = re.sub(r"\s*\.\s*", ".", norm_ws(m[k:j]))
+        recv = recv.split()[-1] if recv.split() else ""
         if not recv or recv.endswith(")"):
             continue
         # a chain receiver (…inner.2.borrow()) is an Adjacent method call
@@ -388,7 +420,7 @@ def apply_R4(body, heap_methods, stats, fid):
             continue
         if m[k - 1:k] == ")":
             continue
-        if recv.split(".")[0] in guard_names:
+        if recv.split(".")[0] in guard_names or re.match(r"itc\d+$", recv):
             continue
         op = mm.end() - 1
         cl = match_close(m, op)
@@ -513,6 +545,32 @@ def apply_R7b(body, stats):
         stats["R7b"] = stats.get("R7b", 0) + 1
 
 
+def apply_R15c(body, stats):
+    """bare mode only: a `for` loop whose body still contains `continue` (rejected by Verus) is
+    desugared to `let mut it = EXPR.into_iter(); loop { match it.next() { Some(PAT) => {BODY} None => break } }`"""
+    for _ in range(8):
+        m = mask(body)
+        target = None
+        for lp in find_loops(m):
+            if lp["kw"] != "for":
+                continue
+            inner = m[lp["hdr_end"]:lp["body_close"]]
+            if re.search(r"(?<![\w])continue\b", inner):
+                target = lp
+        if not target:
+            return body
+        hdr = body[target["start"]:target["hdr_end"]]
+        mm = re.match(r"for\s+(.*?)\s+in\s+(.*)$", hdr.strip(), re.S)
+        if not mm:
+            return body
+        k = stats.get("R15c", 0) + 1
+        stats["R15c"] = k
+        rep = "let mut itc%d = (%s).into_iter(); loop { match itc%d.next() { Some(%s) => {%s} None => break, } }" % (
+            k, mm.group(2).strip(), k, mm.group(1).strip(), body[target["hdr_end"] + 1:target["body_close"]])
+        body = body[:target["start"]] + rep + body[target["body_close"] + 1:]
+    return body
+
+
 def find_loops(m):
     """offsets of loop keywords in text order with their header end ('{')"""
     res = []
@@ -624,7 +682,7 @@ def rewrite_sig(sig, blk, heap_param):
     return out
 
 
-def generate(template_path, flavour, repo="/repo", vacuity=False, rules=None):
+def generate(template_path, flavour, repo="/repo", vacuity=False, rules=None, bare=None):
     fl = FLAVOURS[flavour]
     lines = preprocess(template_path, flavour)
     items = parse_template(lines, flavour)
@@ -669,21 +727,25 @@ def generate(template_path, flavour, repo="/repo", vacuity=False, rules=None):
         # R1 attributes inside bodies do not occur; doc comments were dropped by extraction
         # R3: nothing to do inside bodies
         # function specific rewrites first (they are written against the /repo text)
+        rewrites_lost = []
         for scope, frm, to, optional in b.rewrites:
             rx = re.compile(pat_to_regex(frm))
             tgt = sig if scope == "sig" else None
             if scope == "sig":
                 n = len(rx.findall(sig))
                 if n != 1 and not (optional and n == 0):
-                    raise ExtractError("%s: sigrewrite `%s` matched %d times" % (b.id, frm, n))
+                    rewrites_lost.append("sigrewrite `%s` matched %d times" % (frm, n))
+                    continue
                 sig = rx.sub(lambda _m: to, sig)
             else:
                 n = len(rx.findall(sig)) + len(rx.findall(body))
                 if optional == "all":
                     if n < 1:
-                        raise ExtractError("%s: rewrite-all `%s` matched 0 times" % (b.id, frm))
+                        rewrites_lost.append("rewrite-all `%s` matched 0 times" % frm)
                 elif n != 1 and not (optional and n == 0):
-                    raise ExtractError("%s: rewrite `%s` matched %d times" % (b.id, frm, n))
+                    rewrites_lost.append("rewrite `%s` matched %d times" % (frm, n))
+                    n = 0
+                    continue
                 sig = rx.sub(lambda _m: to, sig)
                 body = rx.sub(lambda _m: to, body)
             if n:
@@ -702,6 +764,8 @@ def generate(template_path, flavour, repo="/repo", vacuity=False, rules=None):
             stats["R14"] = stats.get("R14", 0) + 1
         body = apply_R5(body, stats)
         body = apply_R15(body, stats)
+        if bare and b.id in bare:
+            body = apply_R15c(body, stats)
         body = apply_R7(body, stats)
         body = apply_R7b(body, stats)
         guards = []
@@ -714,52 +778,112 @@ def generate(template_path, flavour, repo="/repo", vacuity=False, rules=None):
         # loops: labels + specs
         m = mask(body)
         loops = find_loops(m)
-        for n in b.loops:
-            if n < 1 or n > len(loops):
-                raise ExtractError("%s: loop %d annotated but function has %d loops" % (b.id, n, len(loops)))
         edits = []
+        pending_loop_specs = []
         for idx, lp in enumerate(loops, 1):
-            if lp["kw"] == "for" and not b.nolabel:
+            if lp["kw"] == "for" and not b.nolabel and not (bare and b.id in bare):
                 im = re.search(r"\bin\b", m[lp["start"]:lp["hdr_end"]])
                 pos = lp["start"] + im.end()
                 edits.append((pos, pos, " it%d:" % idx, 0))
                 stats["R10-label"] = stats.get("R10-label", 0) + 1
             if idx in b.loops:
-                spec = "\n" + "\n".join(b.loops[idx]) + "\n"
-                edits.append((lp["hdr_end"], lp["hdr_end"], spec, 1))
-                stats["R10-loop-spec"] = stats.get("R10-loop-spec", 0) + 1
-        for where, pat, slines in b.splices:
+                pending_loop_specs.append((idx, lp))
+        lost = []
+        placed = []   # (offset, text, slines, order)
+        is_bare = bool(bare and b.id in bare)
+        for sidx, (where, pat, slines) in enumerate([] if is_bare else b.splices):
             txt = "\n" + "\n".join(slines) + "\n"
-            if where == "body-start":
-                edits.append((0, 0, txt, 0))
-            elif where == "before-tail":
-                t = tail_start(m)
-                edits.append((t, t, txt, 0))
-            elif where == "loop-end":
-                marker = "/*@LBE%d*/" % pat
-                if body.count(marker) == 1:
-                    t = body.index(marker)
-                elif 1 <= pat <= len(loops):
-                    t = loops[pat - 1]["body_close"]
+            pos = None
+            try:
+                if where == "body-start":
+                    pos = 0
+                elif where == "before-tail":
+                    pos = tail_start(m)
+                elif where == "loop-end":
+                    marker = "/*@LBE%d*/" % pat
+                    if body.count(marker) == 1:
+                        pos = body.index(marker)
+                    elif 1 <= pat <= len(loops):
+                        pos = loops[pat - 1]["body_close"]
+                    else:
+                        raise ExtractError("loop-end %d: no such loop" % pat)
+                elif where == "before-loop":
+                    if not (1 <= pat <= len(loops)):
+                        raise ExtractError("before-loop %d: no such loop" % pat)
+                    lp = loops[pat - 1]
+                    mm9 = re.search(r"let\s+mut\s+it%d\s*=" % pat, m[:lp["start"]])
+                    pos = stmt_start(m, lp["start"])[0] if not mm9 else stmt_start(m, mm9.start())[0]
                 else:
-                    raise ExtractError("%s: loop-end %d: no such loop" % (b.id, pat))
-                edits.append((t, t, txt, 0))
-            else:
-                nth, total = 1, 1
-                if isinstance(pat, tuple):
-                    pat, nth, total = pat
-                ms = []
-                for alt in pat:
-                    ms.extend(re.compile(pat_to_regex(alt)).finditer(body))
-                ms.sort(key=lambda x: x.start())
-                if len(ms) != total:
-                    raise ExtractError("%s: splice anchor `%s` matched %d times (expected %d)" % (b.id, "` | `".join(pat), len(ms), total))
-                ms = [ms[nth - 1]]
-                if where == "before":
-                    edits.append((ms[0].start(), ms[0].start(), txt, 0))
-                else:
-                    edits.append((ms[0].end(), ms[0].end(), txt, 0))
+                    nth, total = 1, 1
+                    pats = pat
+                    if isinstance(pat, tuple):
+                        pats, nth, total = pat
+                    ms = []
+                    for alt in pats:
+                        ms.extend(re.compile(pat_to_regex(alt)).finditer(body))
+                    ms.sort(key=lambda x: x.start())
+                    if len(ms) != total:
+                        raise ExtractError("anchor `%s` matched %d times (expected %d)" % ("` | `".join(pats), len(ms), total))
+                    mt = ms[nth - 1]
+                    if where == "before":
+                        pos = mt.start()
+                    elif where == "after":
+                        pos = mt.end()
+                    elif where == "before-stmt":
+                        pos = stmt_start(m, mt.start())[0]
+                    elif where == "after-stmt":
+                        s0, blk = stmt_start(m, mt.start())
+                        limit = match_close(m, blk) if blk >= 0 else len(m)
+                        pos = stmt_end(m, s0, limit)
+                    elif where == "in-block":
+                        i2 = mt.end()
+                        while i2 < len(m) and m[i2] != "{":
+                            if m[i2] in "([":
+                                i2 = match_close(m, i2)
+                            i2 += 1
+                        if i2 >= len(m):
+                            raise ExtractError("in-block `%s`: no block follows" % mt.group(0))
+                        pos = i2 + 1
+            except ExtractError as e:
+                lost.append((sidx, str(e)))
+                continue
+            placed.append((pos, txt, slines, sidx))
+        lost_loops = [n for n in b.loops if n < 1 or n > len(loops)]
+        dropped_names = set()
+        if lost or lost_loops:
+            # proof hints whose anchor is gone are dropped, together with every hint / invariant line that
+            # mentions a ghost name they declare (fixpoint); the function is then verified without them
+            def names_of(lines):
+                return set(re.findall(r"let\s+ghost\s+(?:mut\s+)?([A-Za-z_]\w*)", "\n".join(lines)))
+            for sidx, _ in lost:
+                dropped_names |= names_of(b.splices[sidx][2])
+            changed = True
+            while changed:
+                changed = False
+                keep = []
+                for pl in placed:
+                    if dropped_names and re.search(r"\b(%s)\b" % "|".join(map(re.escape, dropped_names)), "\n".join(pl[2])):
+                        nn = names_of(pl[2]) - dropped_names
+                        dropped_names |= names_of(pl[2])
+                        lost.append((pl[3], "depends on a dropped hint"))
+                        changed = True
+                    else:
+                        keep.append(pl)
+                placed = keep
+        for pos, txt, _, sidx in placed:
+            edits.append((pos, pos, txt, 2 + sidx))
             stats["R10-splice"] = stats.get("R10-splice", 0) + 1
+        for idx, lp in ([] if is_bare else pending_loop_specs):
+            lines_ = b.loops[idx]
+            if dropped_names:
+                rx_d = re.compile(r"\b(%s)\b" % "|".join(map(re.escape, dropped_names)))
+                lines_ = [l for l in lines_ if not rx_d.search(l)]
+            spec = "\n" + "\n".join(lines_) + "\n"
+            edits.append((lp["hdr_end"], lp["hdr_end"], spec, 1))
+            stats["R10-loop-spec"] = stats.get("R10-loop-spec", 0) + 1
+        if is_bare:
+            lost = [(0, "bare mode: the function did not compile with its proof annotations; all hints and loop invariants dropped")]
+        hints_lost = rewrites_lost + [msg for _, msg in lost] + ["loop %d annotated but the function has %d loops" % (n, len(loops)) for n in lost_loops]
         edits.sort(key=lambda e: (e[0], e[3]), reverse=True)
         for a, bb, rep, _ in edits:
             body = body[:a] + rep + body[bb:]
@@ -778,6 +902,8 @@ def generate(template_path, flavour, repo="/repo", vacuity=False, rules=None):
         out.append("    // ---- extracted from %s:%d-%d (%s) hash %s" % (b.file, ex["line_start"], ex["line_end"], b.id, h))
         if b.extern_body or vacuity:
             out.append("    #[verifier::external_body]")
+        elif bare and b.id in bare:
+            out.append("    #[verifier::exec_allows_no_decreases_clause]")
         out.extend(("    " + nsig).split("\n"))
         out.extend(spec)
         out.append("    {")
@@ -795,7 +921,7 @@ def generate(template_path, flavour, repo="/repo", vacuity=False, rules=None):
         end = len(out)
         g.linemap.append((start, end, b.id))
         g.fns.append(dict(id=b.id, file=b.file, name=b.name, line_start=ex["line_start"], line_end=ex["line_end"],
-                          hash=h, props=b.props, rules=stats, novac=b.novac or b.extern_body, guards=guards, heap=b.heap,
+                          hash=h, props=b.props, rules=stats, novac=b.novac or b.extern_body, hints_lost=hints_lost, guards=guards, heap=b.heap,
                           gen_start=start, gen_end=end, has_ensures=any(re.match(r"\s*ensures\b", s) for s in b.spec)))
         for k, v in stats.items():
             g.stats[k] = g.stats.get(k, 0) + v
